@@ -8,9 +8,14 @@ impl Clone for SynPath {
 #[verifier::external_body]
 pub struct Ident { _p: () }
 
-/// the two settings fields the kept arms read
+/// the settings fields the kept arms read (compact_type_path, decoded_bits_type_path) and the other plain-data fields, so that an
+/// edit which starts consulting one of them is decided rather than undecided
 pub struct TypeGeneratorSettings {
-    pub compact_type_path: Option<SynPath>,
+    pub types_mod_ident: Ident,
+    pub should_gen_docs: bool,
     pub decoded_bits_type_path: Option<SynPath>,
+    pub compact_as_type_path: Option<SynPath>,
+    pub compact_type_path: Option<SynPath>,
+    pub insert_codec_attributes: bool,
 }
 pub struct TypeGenerator<'a> { pub type_registry: &'a PortableRegistry, pub settings: &'a TypeGeneratorSettings }
